@@ -32,7 +32,8 @@ Check (C06_lending_same_indices : forall e av eids hs ms l1 l2 e1 e2,
   env_join e av eids hs (JSeq None) ms = (e1, JItems l1) ->
   env_join e av eids hs (JLend None) ms = (e2, JItems l2) -> map fst l1 = map fst l2).
 Check (C06_lending_lookup_by_entity : forall e av eids hs ms h ent,
-  join_ok e (JLendGet h) ms = true -> forallb (m_registered e) ms = true -> pv_get hs (N.of_nat h) = Some ent ->
+  join_ok e (JLendGet h) ms = true -> handles_ok hs (JLendGet h) ms = true -> forallb (m_registered e) ms = true ->
+  pv_get hs (N.of_nat h) = Some ent ->
   match snd (env_join e av eids hs (JLendGet h) ms) with
   | JOne (Some (i, xs)) => i = fst ent /\ all_have e eids ms (fst ent) = true /\ av_alive av ent = true /\
                            xs = snd (visit_members av hs true eids ms (fst ent) e)
@@ -40,7 +41,7 @@ Check (C06_lending_lookup_by_entity : forall e av eids hs ms h ent,
   | _ => False
   end).
 Check (C06_lending_lookup_by_index : forall e av eids hs ms i,
-  join_ok e (JLendIdx i) ms = true -> forallb (m_registered e) ms = true ->
+  join_ok e (JLendIdx i) ms = true -> handles_ok hs (JLendIdx i) ms = true -> forallb (m_registered e) ms = true ->
   match snd (env_join e av eids hs (JLendIdx i) ms) with
   | JOne (Some (j, xs)) => j = i /\ all_have e eids ms i = true /\ xs = snd (visit_members av hs true eids ms i e)
   | JOne None => all_have e eids ms i = false
